@@ -20,6 +20,10 @@ pub enum NameC {
     Empty,
     Max,
     TooLong,
+    /// 40000 two-byte characters: 80000 bytes (over the limit), 40000 characters (under it)
+    TooLongUnicode,
+    /// 32768 two-byte characters: exactly the 65536 bytes allowed
+    MaxUnicode,
 }
 #[derive(Clone, Copy, Debug, PartialEq, Eq, Hash)]
 pub enum IdC {
@@ -54,6 +58,8 @@ impl Call {
             "Empty" => Some(NameC::Empty),
             "Max" => Some(NameC::Max),
             "TooLong" => Some(NameC::TooLong),
+            "TooLongUnicode" => Some(NameC::TooLongUnicode),
+            "MaxUnicode" => Some(NameC::MaxUnicode),
             _ => None,
         };
         let src = |x: &str| match x {
@@ -144,6 +150,8 @@ impl Model {
             NameC::Empty => String::new(),
             NameC::Max => "n".repeat(65536),
             NameC::TooLong => "m".repeat(65537),
+            NameC::TooLongUnicode => "\u{e9}".repeat(40000),
+            NameC::MaxUnicode => "\u{e9}".repeat(32768),
         })
     }
     fn file_of(&self, c: IdC) -> Option<Option<usize>> {
@@ -160,7 +168,7 @@ impl Model {
     /// calls enabled in this state (all classes that can be instantiated)
     pub fn alphabet(&self, reduced: bool) -> Vec<Call> {
         let mut v = Vec::new();
-        let names: &[NameC] = if reduced { &[NameC::Fresh, NameC::Dup, NameC::TooLong] } else { &[NameC::Fresh, NameC::Dup, NameC::Empty, NameC::Max, NameC::TooLong] };
+        let names: &[NameC] = if reduced { &[NameC::Fresh, NameC::Dup, NameC::TooLong] } else { &[NameC::Fresh, NameC::Dup, NameC::Empty, NameC::Max, NameC::TooLong, NameC::TooLongUnicode, NameC::MaxUnicode] };
         for n in names {
             if self.name_of(*n).is_some() {
                 v.push(Call::Start(*n));
@@ -452,7 +460,7 @@ pub fn run(started: Instant) -> i32 {
         rep,
         Meta {
             level: "model_checking",
-            rule: "complete tree of writer call sequences (every prefix is itself a case) over start/append/end/add/flush/finalize with names {fresh, duplicate, empty, 65536 bytes, 65537 bytes}, ids {1st/2nd open, ended, never issued}, sizes {0,3}, sources {exact, short, long}; each sequence is run on the real ArchiveWriter in lock-step with a reference model (refused calls are no-ops), then closed (end open files, finalize) and read back with the real reader and, for layers none, an independent block-stream parser. No state merging. states = distinct (sequence, layers); non-trivial = sequences containing at least one call the model refuses or a short source".to_string(),
+            rule: "complete tree of writer call sequences (every prefix is itself a case) over start/append/end/add/flush/finalize with names {fresh, duplicate, empty, 65536 bytes, 65537 bytes, 40000 two-byte characters (80000 bytes), 32768 two-byte characters (65536 bytes)}, ids {1st/2nd open, ended, never issued}, sizes {0,3}, sources {exact, short, long}; each sequence is run on the real ArchiveWriter in lock-step with a reference model (refused calls are no-ops), then closed (end open files, finalize) and read back with the real reader and, for layers none, an independent block-stream parser. No state merging. states = distinct (sequence, layers); non-trivial = sequences containing at least one call the model refuses or a short source".to_string(),
             exhaustive: true,
             bounds: json!({"full_alphabet_depth": depth, "layers_full": "none at full depth, both at depth-1", "reduced_alphabet_depth": rdepth, "reduced_alphabet": "start{fresh,dup,toolong} append(open0|ended,3,exact) end(open0|ended) add{fresh,dup,toolong} flush finalize, layers none"}),
             assumptions: vec!["flush is accepted in every state (the property does not list it among refusable calls)".to_string()],
